@@ -18,7 +18,11 @@
 //	7 t e ty role | 8 t             goroutine t: GetOrAddFeature up to the hook GetOrAddFeature.miss | the rest
 //	9 p c | 10 p c                  peer p (un)subscribes its client feature c
 //	11 p                            peer p reads nodeManagementDetailedDiscoveryData
+//	12 t p | 13 t                   goroutine t handles a read of peer p up to the hook DiscoveryRead.entities
+//	                                (the entity list is taken) | the rest (the reply is built and sent)
 //
+// A panic of the read handler is recovered in its goroutine and reported as observation 20
+// (ReadPanicked); 19 = parked at the hook.
 // ps (the function data supports partial writes) is a fact about the data model, computed
 // from spine.CreateFunctionData; an op whose ps disagrees with it is rejected (97).
 // obs encoding: see print_obs in LocalTree.v.
@@ -60,7 +64,7 @@ var functions = []model.FunctionType{"",
 	model.FunctionTypeNodeManagementSubscriptionDeleteCall, model.FunctionTypeNodeManagementBindingData,
 	model.FunctionTypeNodeManagementBindingRequestCall, model.FunctionTypeNodeManagementBindingDeleteCall,
 	model.FunctionTypeNodeManagementDestinationListData,
-	model.FunctionTypeDeviceClassificationManufacturerData, // 10
+	model.FunctionTypeDeviceClassificationManufacturerData,                                  // 10
 	model.FunctionTypeMeasurementListData, model.FunctionTypeMeasurementDescriptionListData, // 11 12
 	model.FunctionTypeLoadControlLimitListData, model.FunctionTypeLoadControlLimitDescriptionListData, // 13 14
 	model.FunctionTypeElectricalConnectionDescriptionListData, model.FunctionTypeDeviceDiagnosisStateData, // 15 16
@@ -180,9 +184,22 @@ type worker struct {
 	state  int // 2 parked at the hook, 3 done
 }
 
+// reader: an inbound detailed-discovery read handled in its own goroutine
+type reader struct {
+	tid      int64
+	peer     int
+	ref      uint64
+	parked   chan struct{}
+	resume   chan struct{}
+	done     chan struct{}
+	panicked any
+	state    int // 2 parked at the hook, 3 done
+}
+
 type sched struct {
 	mu       sync.Mutex
 	byGoid   map[int64]*worker
+	readGoid map[int64]*reader
 	draining bool
 }
 
@@ -198,18 +215,29 @@ func goid() int64 {
 }
 
 func (s *sched) yield(point string) {
-	if point != "GetOrAddFeature.miss" {
-		return
+	switch point {
+	case "GetOrAddFeature.miss":
+		s.mu.Lock()
+		w := s.byGoid[goid()]
+		drain := s.draining
+		s.mu.Unlock()
+		if w == nil || drain {
+			return
+		}
+		w.parked <- struct{}{}
+		<-w.resume
+	case "DiscoveryRead.entities":
+		// only reads started by op 12 park; the uninterrupted read (op 11) runs in the main goroutine
+		s.mu.Lock()
+		rd := s.readGoid[goid()]
+		drain := s.draining
+		s.mu.Unlock()
+		if rd == nil || drain {
+			return
+		}
+		rd.parked <- struct{}{}
+		<-rd.resume
 	}
-	s.mu.Lock()
-	w := s.byGoid[goid()]
-	drain := s.draining
-	s.mu.Unlock()
-	if w == nil || drain {
-		return
-	}
-	w.parked <- struct{}{}
-	<-w.resume
 }
 
 // ---------------------------------------------------------------- implementation
@@ -229,6 +257,7 @@ type impl struct {
 	peers   []*peer
 	sc      *sched
 	threads map[int64]*worker
+	readers map[int64]*reader
 }
 
 func featAddr(dev string, entity []model.AddressEntityType, f uint) *model.FeatureAddressType {
@@ -248,6 +277,13 @@ func clientAddr(dev string, c int64) *model.FeatureAddressType {
 }
 
 func (p *peer) send(classifier model.CmdClassifierType, ref *model.MsgCounterType, ack bool, cmd model.CmdType) uint64 {
+	b := p.datagram(classifier, ref, ack, cmd)
+	_, _ = p.rd.HandleSpineMesssage(b)
+	return p.ctr
+}
+
+// datagram builds the next message of the peer (its counter is p.ctr afterwards)
+func (p *peer) datagram(classifier model.CmdClassifierType, ref *model.MsgCounterType, ack bool, cmd model.CmdType) []byte {
 	p.ctr++
 	h := model.HeaderType{
 		SpecificationVersion: util.Ptr(model.SpecificationVersionType("1.3.0")),
@@ -264,13 +300,12 @@ func (p *peer) send(classifier model.CmdClassifierType, ref *model.MsgCounterTyp
 	if err != nil {
 		panic(err)
 	}
-	_, _ = p.rd.HandleSpineMesssage(b)
-	return p.ctr
+	return b
 }
 
 func newImpl() hx.Impl {
 	m := &impl{objs: map[int64]*spine.EntityLocal{}, member: map[int64]bool{0: true}, threads: map[int64]*worker{},
-		sc: &sched{byGoid: map[int64]*worker{}}}
+		readers: map[int64]*reader{}, sc: &sched{byGoid: map[int64]*worker{}, readGoid: map[int64]*reader{}}}
 	m.dev = spine.NewDeviceLocal("brand", "model", "serial", "code", localDev, model.DeviceTypeTypeEnergyManagementSystem, model.NetworkManagementFeatureSetTypeSmart)
 	if e0, ok := m.dev.Entity([]model.AddressEntityType{0}).(*spine.EntityLocal); ok {
 		m.objs[0] = e0
@@ -327,10 +362,29 @@ func (m *impl) Close() {
 			}
 		}
 	}
+	for _, rd := range m.readers {
+		if rd.state == 2 {
+			rd.resume <- struct{}{}
+			select {
+			case <-rd.done:
+			case <-time.After(5 * time.Second):
+				fmt.Println("c07: read goroutine did not finish")
+			}
+		}
+	}
 	spine.VerifSetYieldLT(nil)
 	for _, p := range m.peers {
 		m.dev.RemoveRemoteDevice(p.ski)
 	}
+}
+
+// readReply classifies what a finished read of peer p (request counter ref) wrote
+func (m *impl) readReply(p int, ref uint64) []hx.Zs {
+	blocks, results, other := m.collect(p, ref)
+	for pi := range results {
+		other = append(other, hx.Zs{16, int64(pi)})
+	}
+	return append(blocks, other...)
 }
 
 func b2i(b bool) int64 {
@@ -687,11 +741,67 @@ func (m *impl) Exec(op hx.Zs) []hx.Zs {
 		}
 		p := m.peers[op[1]]
 		ref := p.send(model.CmdClassifierTypeRead, nil, false, model.CmdType{NodeManagementDetailedDiscoveryData: &model.NodeManagementDetailedDiscoveryDataType{}})
-		blocks, results, other := m.collect(int(op[1]), ref)
-		for pi := range results {
-			other = append(other, hx.Zs{16, int64(pi)})
+		return m.readReply(int(op[1]), ref)
+	case 12:
+		if len(op) != 3 || op[1] < 0 || op[2] < 0 || op[2] >= nPeers {
+			return bad
 		}
-		return append(blocks, other...)
+		if rd := m.readers[op[1]]; rd != nil && rd.state == 2 {
+			return m.quiet([]hx.Zs{{8}})
+		}
+		p := m.peers[op[2]]
+		b := p.datagram(model.CmdClassifierTypeRead, nil, false, model.CmdType{NodeManagementDetailedDiscoveryData: &model.NodeManagementDetailedDiscoveryDataType{}})
+		rd := &reader{tid: op[1], peer: int(op[2]), ref: p.ctr, parked: make(chan struct{}, 1), resume: make(chan struct{}), done: make(chan struct{})}
+		m.readers[op[1]] = rd
+		started := make(chan struct{})
+		go func() {
+			// HandleSpineMesssage runs the handler in this goroutine: a panic of the handler is recovered here
+			defer close(rd.done)
+			defer func() {
+				if r := recover(); r != nil {
+					rd.panicked = r
+				}
+			}()
+			m.sc.mu.Lock()
+			m.sc.readGoid[goid()] = rd
+			m.sc.mu.Unlock()
+			close(started)
+			_, _ = p.rd.HandleSpineMesssage(b)
+		}()
+		<-started
+		select {
+		case <-rd.parked:
+			rd.state = 2
+			return m.quiet([]hx.Zs{{19}})
+		case <-rd.done:
+			// the handler did not reach the hook
+			rd.state = 3
+			if rd.panicked != nil {
+				return m.quiet([]hx.Zs{{20}})
+			}
+			return m.readReply(rd.peer, rd.ref)
+		case <-time.After(5 * time.Second):
+			return []hx.Zs{{96}}
+		}
+	case 13:
+		if len(op) != 2 {
+			return bad
+		}
+		rd := m.readers[op[1]]
+		if rd == nil || rd.state != 2 {
+			return m.quiet([]hx.Zs{{7}})
+		}
+		rd.resume <- struct{}{}
+		select {
+		case <-rd.done:
+			rd.state = 3
+		case <-time.After(5 * time.Second):
+			return []hx.Zs{{96}}
+		}
+		if rd.panicked != nil {
+			return m.quiet([]hx.Zs{{20}})
+		}
+		return m.readReply(rd.peer, rd.ref)
 	}
 	return bad
 }
@@ -706,14 +816,107 @@ type simEnt struct {
 	member bool
 }
 type sim struct {
-	r    *hx.Rng
-	ents map[int64]*simEnt
-	thr  map[int64][3]int64
-	h    []hx.Zs
+	r     *hx.Rng
+	ents  map[int64]*simEnt
+	list  []int64 // the member list in order
+	thr   map[int64][3]int64
+	reads map[int64][]int64 // pending reads: thread -> the member list at its begin
+	h     []hx.Zs
 }
 
 func newSim(r *hx.Rng) *sim {
-	return &sim{r: r, ents: map[int64]*simEnt{0: {ctr: 2, feats: []simFeat{{0, 1, 3}, {1, 2, 2}}, member: true}}, thr: map[int64][3]int64{}}
+	return &sim{r: r, ents: map[int64]*simEnt{0: {ctr: 2, feats: []simFeat{{0, 1, 3}, {1, 2, 2}}, member: true}}, list: []int64{0},
+		thr: map[int64][3]int64{}, reads: map[int64][]int64{}}
+}
+
+// measured shape of the generated overlapped reads (reported in the evidence)
+var genStats = map[string]int{}
+
+func (s *sim) readBegin(t int64) {
+	s.h = append(s.h, hx.Zs{12, t, int64(s.r.Intn(nPeers))})
+	if _, busy := s.reads[t]; !busy {
+		s.reads[t] = append([]int64(nil), s.list...)
+	}
+}
+
+func (s *sim) readEnd(t int64) {
+	s.h = append(s.h, hx.Zs{13, t})
+	snap, ok := s.reads[t]
+	if !ok {
+		return
+	}
+	delete(s.reads, t)
+	genStats["overlapped_reads"]++
+	same := len(snap) == len(s.list)
+	for i := 0; same && i < len(snap); i++ {
+		same = snap[i] == s.list[i]
+	}
+	if !same {
+		genStats["overlapped_reads_list_changed_meanwhile"]++
+	}
+	// the shape that makes an in-place compaction visible: the array prefix of the read's length differs now
+	shifted := len(s.list) < len(snap)
+	for i := 0; !shifted && i < len(snap); i++ {
+		shifted = snap[i] != s.list[i]
+	}
+	if shifted {
+		genStats["overlapped_reads_across_removal_of_listed_entity"]++
+	}
+	if len(s.reads) > 0 {
+		genStats["overlapped_reads_ended_while_others_pending"]++
+	}
+}
+
+// pending read threads in ascending order (map iteration order must not leak into the history)
+func (s *sim) readThreads() []int64 {
+	var ts []int64
+	for t := range s.reads {
+		ts = append(ts, t)
+	}
+	sort.Slice(ts, func(i, j int) bool { return ts[i] < ts[j] })
+	return ts
+}
+
+func (s *sim) endAllReads() {
+	ts := s.readThreads()
+	for len(ts) > 0 {
+		j := s.r.Intn(len(ts))
+		s.readEnd(ts[j])
+		ts = append(ts[:j], ts[j+1:]...)
+	}
+}
+
+func (s *sim) addEntityID(e int64) {
+	s.h = append(s.h, hx.Zs{1, e})
+	if en := s.ents[e]; en != nil && !en.member {
+		en.member = true
+		s.list = append(s.list, e)
+	}
+}
+
+func (s *sim) removeEntityID(e int64) {
+	s.h = append(s.h, hx.Zs{2, e})
+	if en := s.ents[e]; en != nil {
+		en.member = false
+		var l []int64
+		for _, x := range s.list {
+			if x != e {
+				l = append(l, x)
+			}
+		}
+		s.list = l
+	}
+}
+
+func (s *sim) addFunctionTo(e int64) {
+	en := s.ents[e]
+	if en == nil || len(en.feats) == 0 {
+		s.h = append(s.h, hx.Zs{4, e, 7, 11, 1, 0, 0})
+		return
+	}
+	f := en.feats[s.r.Intn(len(en.feats))]
+	sp := s.fnSpec(f.ty)
+	s.h = append(s.h, hx.Zs{4, e, f.id, sp[0], sp[1], sp[2], sp[3]})
 }
 
 func (s *sim) has(e, ty, role int64) bool {
@@ -770,21 +973,9 @@ func (s *sim) newEntity() {
 	}
 }
 
-func (s *sim) addEntity() {
-	e := int64(s.r.Range(1, maxEnt))
-	s.h = append(s.h, hx.Zs{1, e})
-	if s.ents[e] != nil {
-		s.ents[e].member = true
-	}
-}
+func (s *sim) addEntity() { s.addEntityID(int64(s.r.Range(1, maxEnt))) }
 
-func (s *sim) removeEntity() {
-	e := int64(s.r.Range(1, maxEnt))
-	s.h = append(s.h, hx.Zs{2, e})
-	if s.ents[e] != nil {
-		s.ents[e].member = false
-	}
-}
+func (s *sim) removeEntity() { s.removeEntityID(int64(s.r.Range(1, maxEnt))) }
 
 func (s *sim) addFeatureTo(e, ty, role int64) {
 	z := hx.Zs{3, e, ty, role, int64(s.r.Intn(4))}
@@ -879,10 +1070,14 @@ func (s *sim) unsubscribe() {
 
 func (s *sim) read() { s.h = append(s.h, hx.Zs{11, int64(s.r.Intn(nPeers))}) }
 
-func (s *sim) mixedStep(conc bool) {
-	w := []int{8, 10, 7, 18, 9, 4, 9, 9, 5, 12, 0, 0}
+func (s *sim) mixedStep(conc, overlap bool) {
+	w := []int{8, 10, 7, 18, 9, 4, 9, 9, 5, 12, 0, 0, 0, 0}
 	if conc {
 		w[10], w[11] = 12, 12
+	}
+	if overlap {
+		w[12], w[13] = 9, 9
+		w[2] = 11
 	}
 	switch s.r.Pick(w...) {
 	case 0:
@@ -909,24 +1104,169 @@ func (s *sim) mixedStep(conc bool) {
 		e := s.pickEnt(true)
 		ty, role := s.tyRole()
 		// aim at a (type, role) another parked thread is after
-		for _, x := range s.thr {
-			if s.r.Chance(1, 2) {
+		var parked []int64
+		for t := range s.thr {
+			parked = append(parked, t)
+		}
+		sort.Slice(parked, func(i, j int) bool { return parked[i] < parked[j] })
+		for _, t := range parked {
+			if x := s.thr[t]; s.r.Chance(1, 2) {
 				e, ty, role = x[0], x[1], x[2]
 			}
 		}
 		s.lookup(int64(s.r.Intn(4)), e, ty, role)
-	default:
+	case 11:
 		s.create(int64(s.r.Intn(4)))
+	case 12:
+		s.readBegin(int64(s.r.Intn(4)))
+	default:
+		t := int64(s.r.Intn(4))
+		// mostly end a read that is pending
+		if ts := s.readThreads(); len(ts) > 0 && s.r.Chance(3, 4) {
+			t = ts[s.r.Intn(len(ts))]
+		}
+		s.readEnd(t)
+	}
+}
+
+// overlapRounds: reads held open across changes of the member list and of the listed entity objects
+func (s *sim) overlapRounds() {
+	r := s.r
+	// a device with 2..4 application entities, most of them members, with some features
+	n := int64(r.Range(2, maxEnt))
+	for e := int64(1); e <= n; e++ {
+		s.h = append(s.h, hx.Zs{0, e, int64(r.Range(2, len(entityTypes)-1))})
+		s.ents[e] = &simEnt{ctr: 1}
+		for k := r.Intn(3); k > 0; k-- {
+			ty, role := s.tyRole()
+			s.addFeatureTo(e, ty, role)
+		}
+	}
+	order := []int64{1, 2, 3, 4}[:n]
+	for i := len(order) - 1; i > 0; i-- {
+		j := r.Intn(i + 1)
+		order[i], order[j] = order[j], order[i]
+	}
+	for _, e := range order {
+		if r.Chance(5, 6) {
+			s.addEntityID(e)
+		}
+	}
+	for k := r.Intn(3); k > 0; k-- {
+		s.subscribe()
+	}
+	for round := r.Range(1, 3); round > 0; round-- {
+		// 1..3 reads begin, possibly with a change between them
+		for k := int64(r.Range(1, 3)); k > 0; k-- {
+			t := int64(r.Intn(4))
+			s.readBegin(t)
+			if r.Chance(1, 4) {
+				s.overlapChange()
+			}
+		}
+		for k := r.Range(1, 4); k > 0; k-- {
+			s.overlapChange()
+		}
+		if r.Chance(1, 3) {
+			s.read()
+		}
+		if r.Chance(1, 2) {
+			// end one, change again, end the rest
+			if ts := s.readThreads(); len(ts) > 0 {
+				s.readEnd(ts[r.Intn(len(ts))])
+			}
+			s.overlapChange()
+		}
+		s.endAllReads()
+	}
+	s.read()
+}
+
+// overlapChange: one change while reads are pending, aimed relative to the entity lists they hold
+func (s *sim) overlapChange() {
+	r := s.r
+	apps := func(l []int64) []int64 {
+		var out []int64
+		for _, e := range l {
+			if e != 0 {
+				out = append(out, e)
+			}
+		}
+		return out
+	}
+	switch r.Pick(40, 18, 16, 14, 6, 6) {
+	case 0: // remove a member: first, middle or last of the list (before / at / after the others)
+		l := apps(s.list)
+		if len(l) == 0 {
+			s.removeEntity()
+			return
+		}
+		var e int64
+		switch r.Pick(45, 30, 25) {
+		case 0:
+			e = l[0]
+		case 1:
+			e = l[r.Intn(len(l))]
+		default:
+			e = l[len(l)-1]
+		}
+		s.removeEntityID(e)
+	case 1: // add an entity (a removed one comes back at the end of the list, a new one appears)
+		var out []int64
+		for e := int64(1); e <= maxEnt; e++ {
+			if en := s.ents[e]; en != nil && !en.member {
+				out = append(out, e)
+			}
+		}
+		if len(out) == 0 {
+			s.newEntity()
+			s.addEntity()
+			return
+		}
+		s.addEntityID(out[r.Intn(len(out))])
+	case 2: // a feature on an entity that a pending read lists (member or removed meanwhile)
+		e := s.pickEnt(false)
+		for _, t := range s.readThreads() {
+			if snap := s.reads[t]; len(snap) > 0 && r.Chance(1, 2) {
+				e = snap[r.Intn(len(snap))]
+			}
+		}
+		ty, role := s.tyRole()
+		s.addFeatureTo(e, ty, role)
+	case 3:
+		e := s.pickEnt(false)
+		for _, t := range s.readThreads() {
+			if snap := s.reads[t]; len(snap) > 0 && r.Chance(1, 2) {
+				e = snap[r.Intn(len(snap))]
+			}
+		}
+		s.addFunctionTo(e)
+	case 4:
+		s.getOrAdd()
+	default:
+		if r.Chance(1, 2) {
+			s.subscribe()
+		} else {
+			s.unsubscribe()
+		}
 	}
 }
 
 func gen(r *hx.Rng, tier string, i int) []hx.Zs {
 	s := newSim(r)
-	switch i % 4 {
+	switch i % 6 {
 	case 0: // sequential: configurations, additions, removals, reads
 		for n := r.Range(8, 60); n > 0; n-- {
-			s.mixedStep(false)
+			s.mixedStep(false, false)
 		}
+		s.read()
+	case 4: // reads held open (several at once) across removals / additions of entities, features and functions
+		s.overlapRounds()
+	case 5: // sequential traffic with overlapped reads
+		for n := r.Range(10, 60); n > 0; n-- {
+			s.mixedStep(false, true)
+		}
+		s.endAllReads()
 		s.read()
 	case 1: // subscriptions first (a peer with two features among them), then entity traffic
 		for n := r.Range(2, 7); n > 0; n-- {
@@ -982,13 +1322,14 @@ func gen(r *hx.Rng, tier string, i int) []hx.Zs {
 		}
 		s.h = append(s.h, hx.Zs{6, e, ty, role})
 		s.read()
-	default: // everything mixed with goroutines
+	default: // everything mixed: GetOrAddFeature goroutines and overlapped reads
 		for n := r.Range(10, 60); n > 0; n-- {
-			s.mixedStep(true)
+			s.mixedStep(true, true)
 		}
 		for t := int64(0); t < 4; t++ {
 			s.create(t)
 		}
+		s.endAllReads()
 		s.read()
 	}
 	return s.h
@@ -1002,6 +1343,12 @@ func fixed(tier string) [][]hx.Zs {
 		{{9, 0, 0}, {9, 0, 2}, {9, 2, 1}, {0, 2, 3}, {3, 2, 4, 2, 1, 11, 1, 1, b2i(psup(4, 11)), 12, 1, 0, b2i(psup(4, 12))}, {1, 2}, {11, 1}, {2, 2}, {11, 0}},
 		// ids are not reused after a dropped duplicate feature, after NextFeatureId and after RemoveEntity / AddEntity
 		{{0, 1, 2}, {3, 1, 4, 2, 0}, {3, 1, 4, 2, 2}, {5, 1}, {1, 1}, {2, 1}, {6, 1, 5, 1}, {1, 1}, {3, 1, 6, 2, 0}, {11, 2}},
+		// a read takes the entity list [0 1 2], entity 1 is removed, the read continues: it must still list 0, 1, 2
+		// (C07_inplace_remove_refuted: with an in-place compaction the handler walks [0 2 nil] and panics)
+		{{0, 1, 2}, {0, 2, 3}, {1, 1}, {1, 2}, {12, 0, 0}, {2, 1}, {13, 0}, {11, 0}},
+		// two reads pending at once around removals at the first and the last position, an addition, a feature and a function
+		{{0, 1, 2}, {0, 2, 3}, {0, 3, 4}, {3, 2, 4, 2, 0}, {1, 1}, {1, 2}, {1, 3}, {9, 1, 0}, {12, 0, 1}, {2, 1}, {12, 1, 2}, {2, 3},
+			{3, 2, 5, 2, 1}, {4, 2, 1, 11, 1, 0, b2i(psup(4, 11))}, {1, 1}, {13, 1}, {12, 1, 0}, {13, 0}, {13, 1}, {13, 1}, {11, 1}},
 	}
 }
 
@@ -1011,10 +1358,18 @@ func main() {
 		Clauses: map[int64]string{1: "reply-differs-from-tree", 2: "announced-address-does-not-resolve", 3: "entity-notification-wrong",
 			4: "feature-id-reused", 5: "get-or-add-not-one-feature", 6: "malformed-observation", 98: "unparseable-observation", 99: "unparseable-operation"},
 		OpNames: map[int64]string{0: "new-entity", 1: "add-entity", 2: "remove-entity", 3: "add-feature", 4: "add-function", 5: "next-id",
-			6: "get-or-add", 7: "get-or-add.lookup", 8: "get-or-add.create", 9: "subscribe", 10: "unsubscribe", 11: "read"},
+			6: "get-or-add", 7: "get-or-add.lookup", 8: "get-or-add.create", 9: "subscribe", 10: "unsubscribe", 11: "read",
+			12: "read.begin", 13: "read.end"},
 		NewImpl: newImpl,
 		Gen:     gen,
 		Fixed:   fixed,
-		Count:   map[string]int{"quick": 600, "thorough": 30000},
+		Extra: func() map[string]any {
+			out := map[string]any{}
+			for k, v := range genStats {
+				out[k] = v
+			}
+			return out
+		},
+		Count: map[string]int{"quick": 1200, "thorough": 30000},
 	})
 }
